@@ -970,7 +970,10 @@ fn drive(
             if woken {
                 // busy-polling with nothing to open: let it spin, bounded
                 // (a real run makes progress within microseconds).
-                if last_progress_at.elapsed() > Duration::from_millis(700)
+                // (both wall time AND a large number of fruitless polls: a
+                // thread that was merely descheduled accumulates no polls)
+                if (last_progress_at.elapsed() > Duration::from_millis(700)
+                    && idle_polls > 20_000)
                     || Instant::now() > deadline
                 {
                     rec("stuck", json!({"why":"busy","polls":polls}));
@@ -982,7 +985,7 @@ fn drive(
             let t0 = Instant::now();
             while !flag.woken.load(Ordering::SeqCst) {
                 thread::park_timeout(Duration::from_millis(2));
-                if t0.elapsed() > Duration::from_millis(1500) {
+                if t0.elapsed() > Duration::from_millis(4000) {
                     break;
                 }
             }
